@@ -27,26 +27,28 @@ CONSTANTS TraceFile, OutFile
 Trace == ndJsonDeserialize(TraceFile)
 
 VARIABLES l, viol, done
-vars == <<l, g, content, tags, indexed, stray, viol, done>>
+vars == <<l, g, content, tags, indexed, stray, tagann, viol, done>>
 
 Rec == Trace[l]
 NoG == [n |-> 0]
 
 V(checks) == viol' = viol \cup {[t |-> Rec.t, i |-> Rec.i, inv |-> c[1]] : c \in {c \in checks : ~c[2]}}
 
-Init == l = 1 /\ g = NoG /\ content = {} /\ tags = <<>> /\ indexed = {} /\ stray = {} /\ viol = {} /\ done = FALSE
+Init == l = 1 /\ g = NoG /\ content = {} /\ tags = <<>> /\ indexed = {} /\ stray = {} /\ tagann = <<>> /\ viol = {} /\ done = FALSE
 
 EvInit ==
   /\ Rec.e = "init"
   /\ g' = Rec /\ content' = {} /\ indexed' = {} /\ stray' = {}
   /\ tags' = [r \in Rng(Rec.refs) |-> 0]
+  /\ tagann' = [r \in Rng(Rec.refs) |-> ""]
   /\ UNCHANGED viol
 
 \* mutating operations
 EvOp ==
-  /\ Rec.e = "op" /\ Rec.op \in {"push", "tag", "untag", "delete", "gc", "stray"}
+  /\ Rec.e = "op" /\ Rec.op \in {"push", "pushbad", "tag", "untag", "delete", "gc", "stray"}
   /\ LET x == Expect(Rec) IN
      /\ content' = x.content /\ stray' = x.stray /\ tags' = x.tags /\ indexed' = x.indexed
+     /\ tagann' = IF Rec.op = "tag" /\ x.res = "ok" THEN [tagann EXCEPT ![Rec.ref] = Rec.ann] ELSE tagann
      /\ V({<<"OpResult", Rec.res = x.res>>,
            <<"NoHang", Rec.res # "hang">>})
   /\ UNCHANGED g
@@ -65,7 +67,7 @@ EvQuery ==
          [] Rec.op = "tags" -> {<<"TagsListing", /\ Rec.res = "ok" /\ Rec.list = Rec.sorted
                                                   /\ Rng(Rec.list) = {r \in Refs : tags[r] # 0 /\ r \in Rng(Rec.gt)}
                                                   /\ Len(Rec.list) = Cardinality(Rng(Rec.list))>>})
-  /\ UNCHANGED <<g, content, tags, indexed, stray>>
+  /\ UNCHANGED <<g, content, tags, indexed, stray, tagann>>
 
 \* an observation of a store (the live one or a reopened one): o = [exists, fetchok, tags, bydigest, pred, taglist]
 TagPairs(T) == {<<r, T[r]>> : r \in {q \in Refs : T[q] # 0}}
@@ -73,6 +75,8 @@ ObsChecks(o, pfx) ==
   {<<pfx \o "Exists", Rng(o.exists) = Present>>,
    <<pfx \o "Fetch", Rng(o.fetchok) = Present>>,
    <<pfx \o "Tags", {<<o.tags[i][1], o.tags[i][2]>> : i \in 1..Len(o.tags)} = TagPairs(tags)>>,
+   <<pfx \o "TagAnnotations", IsOci => \A i \in 1..Len(o.tags) : o.tags[i][1] \in Refs => o.tags[i][3] = tagann[o.tags[i][1]]>>,
+   <<pfx \o "ExistsPlain", Rng(o.existsplain) = Present /\ Rng(o.fetchplain) = Present>>,
    <<pfx \o "Pred", \A n \in Nodes : Rng(o.pred[n]) = Pred(content, n)>>,
    <<pfx \o "PredNoDup", \A n \in Nodes : Len(o.pred[n]) = Cardinality(Rng(o.pred[n]))>>,
    <<pfx \o "ByDigest", IsOci => /\ Rng(o.byindex) = indexed
@@ -82,7 +86,7 @@ ObsChecks(o, pfx) ==
 EvObs ==
   /\ Rec.e = "obs"
   /\ V(ObsChecks(Rec.o, IF Rec.mode = "live" THEN "Live" ELSE "Reopen"))
-  /\ UNCHANGED <<g, content, tags, indexed, stray>>
+  /\ UNCHANGED <<g, content, tags, indexed, stray, tagann>>
 
 \* the raw directory of an OCI layout
 EvDisk ==
@@ -93,12 +97,12 @@ EvDisk ==
         <<"DiskNamedEntriesResolve", Rec.danglingnamed = 0>>,
         <<"DiskIndexTags", ~Rec.saved \/ {<<Rec.entries[i][1], Rec.entries[i][2]>> : i \in {j \in 1..Len(Rec.entries) : Rec.entries[j][1] # ""}}
                                = TagPairs(tags)>>})
-  /\ UNCHANGED <<g, content, tags, indexed, stray>>
+  /\ UNCHANGED <<g, content, tags, indexed, stray, tagann>>
 
 EvReopenErr ==
   /\ Rec.e = "reopenerr"
   /\ V({<<"ReopenOpens", FALSE>>})
-  /\ UNCHANGED <<g, content, tags, indexed, stray>>
+  /\ UNCHANGED <<g, content, tags, indexed, stray, tagann>>
 
 Step ==
   /\ l <= Len(Trace)
@@ -110,7 +114,7 @@ Finish ==
   /\ l = Len(Trace) + 1 /\ ~done
   /\ done' = TRUE
   /\ JsonSerialize(OutFile, [consumed |-> l - 1, viol |-> viol])
-  /\ UNCHANGED <<l, g, content, tags, indexed, stray, viol>>
+  /\ UNCHANGED <<l, g, content, tags, indexed, stray, tagann, viol>>
 
 Next == Step \/ Finish
 Spec == Init /\ [][Next]_vars
